@@ -182,4 +182,18 @@ def exportStack (a : Arena V) : Option (List V) :=
     exportLoop (3 * a.nodes.size + 2) a [s] []
 
 end Arena
+/-! ### `height()`: the capacity `create_ordered_list` reserves for its stack (`key/array.rs`) -/
+
+/-- the `while node.left != EMPTY_REF` loop of `height()` -/
+def Arena.heightLoop : Nat → Arena V → ANode V → Nat → Option Nat
+  | 0, _, _, _ => none
+  | fuel + 1, a, n, h =>
+    if n.left == EMPTY then some h
+    else (a.node n.left).bind fun n' => Arena.heightLoop fuel a n' (if n'.red then h else h + 1)
+
+/-- `height()` -/
+def Arena.heightCap (a : Arena V) : Option Nat :=
+  if a.root == EMPTY then some 0
+  else (a.node a.root).bind fun n => (Arena.heightLoop (a.nodes.size + 1) a n 1).map (· * 2)
+
 end ITree
